@@ -649,7 +649,7 @@ Section Laws.
         eapply goes_trans; [eapply body_end; eassumption|]. exact IH.
     Qed.
 
-    Theorem do_loop_general : forall d d' start s,
+    Theorem do_loop_general_proof : forall d d' start s,
       d_stack d = start :: stp :: s -> zlen dos0 <> p_rec_max p -> (start < stp -> zlen fr + 1 <> p_rec_max p) ->
       do_iter is_step bodyrun stp start (with_stack d s) d' ->
       G (S_ d ((which, ip) :: fr) dos0) (S_ d' ((which, ip + 2) :: fr) dos0).
@@ -708,10 +708,10 @@ Section Loops.
       destruct (do_iter_count (fun i a b => SG body ((which, ip + 1) :: fr) ((zlen fr + 1, n, i) :: dos0) a b)
                               B Inv n (Z.to_nat (n - m)) m (with_stack d s)) as [H1 H2]; try assumption; try lia.
       split; [|replace (Z.max m n) with n by lia; exact H2].
-      eapply (do_loop_general p e t tg rd er false); try eassumption. intros _; exact Hr.
+      eapply (do_loop_general_proof p e t tg rd er false); try eassumption. intros _; exact Hr.
     - replace (Z.to_nat (n - m)) with 0%nat by lia. cbn [iter_from].
       split; [|replace (Z.max m n) with m by lia; exact Hi].
-      eapply (do_loop_general p e t tg rd er false); try eassumption; [lia|].
+      eapply (do_loop_general_proof p e t tg rd er false); try eassumption; [lia|].
       apply DI_done. lia.
   Qed.
 
@@ -723,7 +723,7 @@ Section Loops.
     G (S_ d ((which, ip) :: fr) dos0) (S_ (with_stack d s) ((which, ip + 2) :: fr) dos0).
   Proof.
     intros is_step which ip fr dos0 body start stp s d Hc1 Hc2 Hf Ht Hr Hs Hle.
-    eapply (do_loop_general p e t tg rd er is_step); try eassumption; [lia|]. apply DI_done. exact Hle.
+    eapply (do_loop_general_proof p e t tg rd er is_step); try eassumption; [lia|]. apply DI_done. exact Hle.
   Qed.
 
   Lemma do_iter_ploop : forall (bodyrun : Z -> data -> data -> Prop) (B : Z -> data -> data) (Inv : Z -> data -> Prop) stp fuel i d d',
@@ -758,7 +758,7 @@ Section Loops.
     G (S_ d ((which, ip) :: fr) dos0) (S_ d' ((which, ip + 2) :: fr) dos0).
   Proof.
     intros which ip fr dos0 body B Inv n m s d fuel d' Hc1 Hc2 Hf Ht Hr1 Hr2 Hs Hi Hb Hp.
-    eapply (do_loop_general p e t tg rd er true); try eassumption.
+    eapply (do_loop_general_proof p e t tg rd er true); try eassumption.
     eapply do_iter_ploop; eassumption.
   Qed.
 
@@ -895,7 +895,7 @@ Section Begin.
       - replace (ip + 1 + 1) with (ip + 2) by lia. reflexivity.
     Qed.
 
-    Theorem until_underflow : forall d, d_stack d = [] ->
+    Theorem until_underflow_proof : forall d, d_stack d = [] ->
       ends p e t (S_ d ((which, ip + 1) :: fr) dos) (Ok (St tg rd E_underflow d ((which, ip + 2) :: fr) dos)).
     Proof.
       intros d Hs. eapply stop_free; try eassumption.
@@ -903,7 +903,7 @@ Section Begin.
       replace (ip + 2) with (ip + 1 + 1) by lia. reflexivity.
     Qed.
 
-    Theorem begin_until_general : forall d d', zlen fr + 1 <> p_rec_max p ->
+    Theorem begin_until_general_proof : forall d d', zlen fr + 1 <> p_rec_max p ->
       until_iter (SG body ((which, ip + 1) :: fr) dos) d d' ->
       G (S_ d ((which, ip) :: fr) dos) (S_ d' ((which, ip + 2) :: fr) dos).
     Proof.
@@ -942,7 +942,7 @@ Section Begin.
     G (S_ d ((which, ip) :: fr) dos) (S_ d' ((which, ip + 2) :: fr) dos).
   Proof.
     intros which ip fr dos body B Inv fuel d d' Hc1 Hc2 Hf Ht Hr Hi Hb Hp.
-    eapply begin_until_general; try eassumption. eapply until_iter_loop; eassumption.
+    eapply begin_until_general_proof; try eassumption. eapply until_iter_loop; eassumption.
   Qed.
 
   (* ---------------------------------------------------------------- begin .. while .. repeat *)
@@ -972,7 +972,7 @@ Section Begin.
         replace (ip + 2 + 1 + -3) with ip by lia. reflexivity.
     Qed.
 
-    Theorem while_underflow : forall d, d_stack d = [] ->
+    Theorem while_underflow_proof : forall d, d_stack d = [] ->
       ends p e t (S_ d ((which, ip + 1) :: fr) dos) (Ok (St tg rd E_underflow d ((which, ip + 2) :: fr) dos)).
     Proof.
       intros d Hs. eapply stop_free; try eassumption.
@@ -980,7 +980,7 @@ Section Begin.
       replace (ip + 2) with (ip + 1 + 1) by lia. reflexivity.
     Qed.
 
-    Theorem begin_while_repeat_general : forall d d',
+    Theorem begin_while_repeat_general_proof : forall d d',
       while_iter (SG pre ((which, ip + 1) :: fr) dos) (SG post ((which, ip) :: fr) dos) d d' ->
       G (S_ d ((which, ip) :: fr) dos) (S_ d' ((which, ip + 3) :: fr) dos).
     Proof.
@@ -1028,7 +1028,7 @@ Section Begin.
     G (S_ d ((which, ip) :: fr) dos) (S_ d' ((which, ip + 3) :: fr) dos).
   Proof.
     intros which ip fr dos pre post Pre Post Inv fuel d d' Hc1 Hc2 Hc3 Hf Ht Hr Hi Hb Hp.
-    eapply begin_while_repeat_general; try eassumption. eapply while_iter_loop; eassumption.
+    eapply begin_while_repeat_general_proof; try eassumption. eapply while_iter_loop; eassumption.
   Qed.
 
   (* ---------------------------------------------------------------- begin .. again *)
@@ -1054,11 +1054,11 @@ Section Begin.
       replace (ip + 1 + 1 + -2) with ip by lia. reflexivity.
     Qed.
 
-    Theorem begin_again_pass : forall d d', SG body ((which, ip + 1) :: fr) dos d d' ->
+    Theorem begin_again_pass_proof : forall d d', SG body ((which, ip + 1) :: fr) dos d d' ->
       G (S_ d ((which, ip) :: fr) dos) (S_ d' ((which, ip) :: fr) dos).
     Proof. intros. apply goes1_goes, begin_again_pass1. assumption. Qed.
 
-    Theorem begin_again_n : forall (B : data -> data) (Inv : nat -> data -> Prop) n,
+    Theorem begin_again_n_proof : forall (B : data -> data) (Inv : nat -> data -> Prop) n,
       (forall j di, (j < n)%nat -> Inv j di -> SG body ((which, ip + 1) :: fr) dos di (B di) /\ Inv (S j) (B di)) ->
       forall d, Inv 0%nat d ->
       G (S_ d ((which, ip) :: fr) dos) (S_ (Nat.iter n B d) ((which, ip) :: fr) dos) /\ Inv n (Nat.iter n B d).
@@ -1067,11 +1067,11 @@ Section Begin.
       - split; [apply goes_refl|exact Hi].
       - destruct (IH (fun j di Hj => Hb j di (Nat.lt_lt_succ_r _ _ Hj)) d Hi) as [H1 H2].
         destruct (Hb n _ (Nat.lt_succ_diag_r n) H2) as [H3 H4]. cbn [Nat.iter]. split; [|exact H4].
-        eapply goes_trans; [exact H1|]. apply begin_again_pass. exact H3.
+        eapply goes_trans; [exact H1|]. apply begin_again_pass_proof. exact H3.
     Qed.
 
     (* a body that always runs to its end (no exit, halt or error) never leaves the loop: the run does not end *)
-    Theorem begin_again_diverges : forall (B : data -> data) (Inv : data -> Prop),
+    Theorem begin_again_diverges_proof : forall (B : data -> data) (Inv : data -> Prop),
       (forall di, Inv di -> SG body ((which, ip + 1) :: fr) dos di (B di) /\ Inv (B di)) ->
       forall f d, Inv d -> internal_run f true false p e t (S_ d ((which, ip) :: fr) dos) = OutOfFuel.
     Proof.
@@ -1441,7 +1441,7 @@ Proof.
   eapply goes_ends; [apply call_enter_proof with (sg := 1) (len := 4); side|].
   eapply goes_ends; [apply literal_spec with (num := 0); side|].
   (* four complete passes through the body *)
-  destruct (begin_again_n p_again (mkEnv []) 0 [0] true 0 1 2 [(0, 1)] [] 2 ltac:(reflexivity) ltac:(reflexivity)
+  destruct (begin_again_n_proof p_again (mkEnv []) 0 [0] true 0 1 2 [(0, 1)] [] 2 ltac:(reflexivity) ltac:(reflexivity)
               ltac:(reflexivity) ltac:(side) ltac:(side) B_again (fun j d => d = d_of [Z.of_nat j]) 4%nat) with (d := d_of [0])
     as [Hg _].
   { intros j di Hj ->. split; [|destruct j as [|[|[|[|j]]]]; [reflexivity..|lia]].
@@ -1504,6 +1504,81 @@ Proof.
         eapply goes_trans; [apply literal_spec with (num := 0); side|].
         exact Hg'.
       * change (Z.max 0 3) with 3 in Hi'. unfold B_out. cbn [d_stack with_stack] in *.
-        change (Z.to_nat (3 - 0)) with 3%nat in Hi'. Show. lia.
+        change (Z.to_nat (3 - 0)) with 3%nat in Hi'. replace (3 * (j + 1)) with (3 * j + 3) by lia. exact Hi'.
   - eapply goes_ends; [exact Hg|]. apply run_end; side.
+Qed.
+
+(* ---- i j k on a do-stack with three entries (n = 0, 1, 2 selects the innermost, second, third counter) *)
+Definition p_ijk := mkProg 64 [[29; 30; 31]] [] [] [] [] 64 16.
+
+Example ex_i_j_k : forall a b c s, zlen s < 60 ->
+  goes p_ijk (mkEnv []) 0 (St [0] true 0 (d_of s) [(0, 0); (9, 9)] [(5, 100, a); (4, 100, b); (3, 100, c)])
+       (St [0] true 0 (d_of (wrap 64 c :: wrap 64 b :: wrap 64 a :: s)) [(0, 3); (9, 9)] [(5, 100, a); (4, 100, b); (3, 100, c)]).
+Proof.
+  intros a b c s Hs.
+  eapply goes_trans; [apply (loop_index_spec_proof p_ijk (mkEnv []) 0 [0] true 0 _ 0 0 [(9, 9)] _ 0%nat 5 100 a); side|].
+  eapply goes_trans; [apply (loop_index_spec_proof p_ijk (mkEnv []) 0 [0] true 0 _ 0 1 [(9, 9)] _ 1%nat 4 100 b); side|].
+  eapply goes_trans; [apply (loop_index_spec_proof p_ijk (mkEnv []) 0 [0] true 0 _ 0 2 [(9, 9)] _ 2%nat 3 100 c); side|].
+  apply goes_refl.
+Qed.
+
+(* ================================================================== 11. where the model leaves standard Forth *)
+(* (1) `+loop` with a negative step.  Forth-2012 (6.1.0140): the loop ends when the index crosses the boundary between
+   limit-1 and limit, so `0 10 do i -1 +loop` leaves 10 9 8 7 6 5 4 3 2 1 0.  The machine tests `stop <= i` BEFORE every
+   pass, whatever the sign of the step: with start >= stop the body never runs. *)
+Definition p_negstep := mkProg 64 [[0; 0; 0; 10; 6; 67]; [29; 0; -1]] [] [] [] [] 64 16.
+
+Example plus_loop_negative_step_refuted :
+  compile 64 64 16 (bytes "0 10 do i -1 +loop"%string) = COk p_negstep /\
+  ends p_negstep (mkEnv []) 0 begun (Ok (finished [])) /\
+  (exists mf, api_run 100 true p_negstep (mkEnv []) (init_machine p_negstep) = Ok mf /\ m_err mf = E_none /\
+              m_stack mf = [] /\ m_stack mf <> [0; 1; 2; 3; 4; 5; 6; 7; 8; 9; 10]).
+Proof.
+  split; [vm_compute; reflexivity|]. split.
+  - unfold begun, finished.
+    eapply goes_ends; [apply literal_spec with (num := 0); side|].
+    eapply goes_ends; [apply literal_spec with (num := 10); side|].
+    eapply goes_ends; [apply (do_loop_no_iteration_proof p_negstep (mkEnv []) 0 [0] true 0 true 0 4 [] [] 1 10 0 []); side|].
+    apply run_end; side.
+  - eexists. split; [vm_compute; reflexivity|]. repeat split. discriminate.
+Qed.
+
+(* (2) a negative step from start < stop counts downwards, away from the limit: the loop only ends through an error
+   (here stack overflow after 8 passes) or when the index wraps around at -2^63 *)
+Example plus_loop_negative_step_runs_away :
+  let p := mkProg 64 [[0; 10; 0; 0; 6; 67]; [29; 0; -1]] [] [] [] [] 8 16 in
+  compile 64 8 16 (bytes "10 0 do i -1 +loop"%string) = COk p /\
+  exists mf, api_run 1000 true p (mkEnv []) (init_machine p) = Ok mf /\ m_err mf = E_overflow /\
+             m_stack mf = [-7; -6; -5; -4; -3; -2; -1; 0] /\ m_dos mf = [(-2, 10, -7)].
+Proof. cbv zeta. split; [vm_compute; reflexivity|]. eexists. split; [vm_compute; reflexivity|]. repeat split. Qed.
+
+(* (3) `do` behaves like Forth's `?do`: with start = stop the body is skipped (Forth-2012 `do` would run 2^64 passes) *)
+Example do_loop_empty_range :
+  let p := mkProg 64 [[0; 5; 0; 5; 5; 67]; [29]] [] [] [] [] 64 16 in
+  compile 64 64 16 (bytes "5 5 do i loop"%string) = COk p /\
+  ends p (mkEnv []) 0 begun (Ok (finished [])) /\
+  api_run 100 true p (mkEnv []) (init_machine p) = Ok (St [] true 0 (d_of []) [] []).
+Proof.
+  cbv zeta. split; [vm_compute; reflexivity|]. split; [|vm_compute; reflexivity].
+  unfold begun, finished.
+  eapply goes_ends; [apply literal_spec with (num := 5); side|].
+  eapply goes_ends; [apply literal_spec with (num := 5); side|].
+  eapply goes_ends; [apply (do_loop_no_iteration_proof _ (mkEnv []) 0 [0] true 0 false 0 4 [] [] 1 5 5 []); side|].
+  apply run_end; side.
+Qed.
+
+(* errors of `do`: too few cells, do-stack full *)
+Example ex_do_errors :
+  let p := mkProg 64 [[0; 1; 5; 67]; [29]] [] [] [] [] 64 16 in
+  compile 64 64 16 (bytes "1 do i loop"%string) = COk p /\
+  ends p (mkEnv []) 0 (St [0] true 0 (d_of [1]) [(0, 2)] []) (Ok (St [0] true E_underflow (d_of [1]) [(0, 3)] [])) /\
+  api_run 100 true p (mkEnv []) (init_machine p) = Ok (St [0] true E_underflow (d_of [1]) [(0, 3)] []) /\
+  let q := mkProg 64 [[0; 2; 0; 0; 5; 67]; [0; 2; 0; 0; 5; 68]; [29]] [] [] [] [] 64 1 in
+  ends q (mkEnv []) 0 (St [0] true 0 (d_of [0; 2]) [(1, 4); (0, 5)] [(1, 2, 0)])
+       (Ok (St [0] true E_recursion (d_of []) [(1, 5); (0, 5)] [(1, 2, 0)])).
+Proof.
+  cbv zeta. split; [vm_compute; reflexivity|].
+  split; [apply (do_underflow_proof _ (mkEnv []) 0 [0] true 0 false); side|].
+  split; [vm_compute; reflexivity|].
+  apply (do_recursion_limit_proof _ (mkEnv []) 0 [0] true 0 false 1 4 [(0, 5)] [(1, 2, 0)] _ 0 2 []); side.
 Qed.
